@@ -47,7 +47,7 @@ class Report:
                 d['bounded'] = self.bounded_mode
             self.obligations.append(d)
 
-    def add(self, name, kind, status, backend, seconds=0.0, model=None, note='', statement=None, finding_key=None, bounded=None):
+    def add(self, name, kind, status, backend, seconds=0.0, model=None, note='', statement=None, finding_key=None, bounded=None, finding_sig=None):
         d = {'name': name, 'kind': kind, 'status': status, 'backend': backend, 'seconds': round(seconds, 4)}
         if bounded or self.bounded_mode:
             d['bounded'] = bounded or self.bounded_mode
@@ -59,6 +59,8 @@ class Report:
             d['statement'] = statement
         if finding_key:
             d['finding_key'] = finding_key
+        if finding_sig:
+            d['finding_sig'] = finding_sig
         self.obligations.append(d)
         return d
 
@@ -72,8 +74,10 @@ class Report:
         if p.is_zero():
             return self.add(name, kind, 'discharged', 'poly-normal-form', time.time() - t0, statement=statement, bounded=bounded)
         model = poly_counterexample(p)
+        import hashlib
+        sig = hashlib.md5(repr(p.key()).encode()).hexdigest()[:10] if finding_key else None      # identifies *which* residual fails
         return self.add(name, kind, 'refuted', 'poly-normal-form+z3-model', time.time() - t0, model=model,
-                        note='residual: ' + repr(p)[:300], statement=statement, finding_key=finding_key, bounded=bounded)
+                        note='residual: ' + repr(p)[:300], statement=statement, finding_key=finding_key, bounded=bounded, finding_sig=sig)
 
     def result(self):
         E = self.E
